@@ -51,7 +51,8 @@ func mutateText(r *rand.Rand, text string) string {
 			toks[k], toks[j] = toks[j], toks[k]
 		case 3:
 			toks[k] = []string{"{", "}", "(", ")", "[", "]", "\"", "'", "`", "/", "//{", "%{", "&", "!", "#", "*", "+", "?", ":", ";", "=", "<-", "\\", "\n", "i", ".", "^", "\\p{", "\\u12", "\\x", "\\8",
-				"[\\p{Lu]", "[\\p{", "[\\pL", "[a-", "[^", "[\\p{Lu}", "\\p", "]]", "[[]", "//{L}", "%{", "`"}[r.Intn(43)]
+				"[\\p{Lu]", "[\\p{", "[\\pL", "[a-", "[^", "[\\p{Lu}", "\\p", "]]", "[[]", "//{L}", "%{", "`",
+				" \"a\\qc\" ", " 'b\\400' ", " \"\\u00G0\" ", " \"\xff\" ", " [\\q] ", " \"a\nb\" "}[r.Intn(49)]
 		case 4:
 			toks[k] = toks[k] + toks[k]
 		case 5:
@@ -105,6 +106,10 @@ func C13(c *Ctx) {
 		"{\npackage p\n}\nA <- 'x' { this is not go }\n", "{\npackage p\n}\nA \"\" <- ''\n", "", "\n\n", "{\npackage p\n}\n", "{", "A", "A <-", "A <- 'a", "A <- [a", "A <- \"\\u12\"", "A <- 'a' //{", "A <- %{",
 		"{\npackage p\n}\nA <- B\nB <- C\nC <- D\nD <- A / 'x'\n",
 		"A = [\\p{Lu]]\n", "A = [\\p{Lu]\n", "A = [\\p{]\n", "A = [\\p", "A = [\\pX]\n", "A = [\\p{Nope}]\n", "A = [a-\n", "A = [\\", "A = [\\x4]\n", "A = [a\\u12]\n", "A = [^\n", "A = []]\n", "A = [\\p{Lu}\\p{\n",
+		// a literal with an error directly after a rule reference / before a rule operator (the front-end looks ahead over it)
+		"A <- B \"a\\qc\"\nB <- 'b'\n", "A <- B \"unterminated", "A <- B\nB \"bad\\q name\" <- 'b'\n", "A <- B 'x\xffy'\nB <- 'b'\n", "A <- B \"\\u12\" C\nB <- 'b'\nC <- 'c'\n", "A <- b:B [\\q]\nB <- 'b'\n",
+		// runes whose case folding crosses the Basic Latin boundary
+		"{\npackage p\n}\nA <- [K\u017f\u0130\u0131\u212a]i [\u212a-\u212b]i '\u017f'i \"\u212a\"i [^\u0130]i [\u00b5\u03bc\u1e9e\u00df]i\n",
 		"A = 'ab'\n", "A = ''\n", "A = \"\\U00110000\"\n", "A = \"\\ud800\"\n", "A = `unterminated\n", "A = \"a\" /* unterminated\n", "A = \"a\" { if x { }\n", "A = %{L\n", "A = \"a\" //{L,} \"b\"\n", "A = \"a\" //{} \"b\"\n", "{\npackage p\n}\nA <- &A 'a' / 'b'\n", "{\npackage p\n}\nA <- !. / W A\nW <- [ \\t]*\n",
 	}
 	var jobs []job
@@ -253,6 +258,16 @@ func C13(c *Ctx) {
 			return
 		}
 		if res.Exit == 0 {
+			// "a grammar that is rejected never produces exit status 0": whether the text is a grammar at
+			// all (front-end verdict, exit 3) cannot depend on the flags
+			if len(j.flags) > 0 && j.kind != "valid" && j.kind != "unicode-classes" && !hasFlag(j.flags, "-h") {
+				if r2, _, _ := run(j, nil); !r2.Killed && r2.Exit == 3 {
+					c.CovAdd("accepted_texts_rerun_without_flags", 1)
+					report("rejected-grammar-accepted", fmt.Sprintf("exit status 0 with flags %v for a text the front-end rejects without flags (exit 3: %s)", j.flags, firstLine(r2.Stderr)))
+					return
+				}
+				c.CovAdd("accepted_texts_rerun_without_flags", 1)
+			}
 			if hasFlag(j.flags, "-debug") {
 				c.Distinct(fmt.Sprintf("%x%v", j.text, j.flags))
 				return // -debug prints the front-end's trace; only termination and exit status are checked
